@@ -20,17 +20,20 @@ world]; for an op `x`, `x.oStart` / `x.nStart` are its old / new index — for a
 new-side index, for an Insert `x.oStart` IS the carried old-side index — and `x.oLen` / `x.nLen` the numbers of old /
 new items it consumes; `(pre.map Op.oLen).sum` is the number of old items consumed by the ops `pre`.
 
-"(a) In every captured op list [`opsR`, the repaired swap; every algorithm, every in-bounds pair of ranges], both
+"(a) In every captured op list [`opsR`, the repaired swap; every algorithm, EVERY clock, every in-bounds pair of
+    ranges], both
     indices of every op - including the new-side index carried by a Delete and the old-side index carried by an
     Insert - equal the number of new, respectively old, items consumed by all preceding ops plus the range start
     [`Exact os ns opsR`, and the same unfolded: for every split `opsR = pre ++ x :: post`,
     `x.oStart = os + Σ oLen pre` and `x.nStart = ns + Σ nLen pre`].
-    [Hypothesis of (a) and (b): `alg = .lcs ∨ w.clock = none`, i.e. LCS under EVERY clock, Myers and Patience
-    WITHOUT a deadline.  This is the range in which exactness of the raw callback stream is proved
-    (`C11.lcs_raw_exact_noReplace`, `C11.myers_raw_exact_uncond`, `C11.patience_raw_exact_total`), from which the
-    repaired clean-up and `Replace` carry it to the captured ops.  Under an expiring deadline the raw Myers fallback
-    `delete; insert` carries a run-relative index that C01 allows but that is not exact
-    (`C11.expired_deadline_raw_not_exact`), so this route is closed; see "Not covered".]
+    [(a) and (b) have NO hypothesis beyond in-bounds ranges: every algorithm, every world — in particular Myers and
+    Patience under a deadline that expires in the middle of the run (`C11.capture_exact_repaired_every_clock`).
+    Without a deadline (and for LCS under every clock) the raw callback stream is already exact
+    (`C11.lcs_raw_exact_noReplace`, `C11.myers_raw_exact_uncond`, `C11.patience_raw_exact_total`) and the repaired
+    clean-up and `Replace` keep it so.  Under an expiring deadline the raw Myers fallback `delete; insert` is NOT exact
+    (`C11.expired_deadline_raw_not_exact`: the Insert carries the old position before its Delete), only near-exact;
+    the repaired clean-up swaps every such pair at least once and the repaired swap recomputes both carried indices,
+    so the CAPTURED ops are exact all the same (`CaptureClock.capture_exact_of_near`).]
  (b) Consumers that position an insertion by its old index [for every Insert `insert co cn l` of `opsR`, `co` is the
     range start plus the number of old items consumed before it: the true old position of the insertion] or
     compute hunk extents from the first and last op (as the unified-diff header does) [whole-sequence diffs,
@@ -55,21 +58,17 @@ What holds for the SHIPPED swap, every algorithm and EVERY clock (no hypothesis 
 
 Hypothesis: `RangesInBounds` (ranges not reversed, all element tests on them defined; Myers and LCS need only its
 first three fields, the same-side tests are Patience's).
-Not covered by this theorem: (a) and (b) for the SHIPPED swap — false, (e); (a) and (b) for the repaired swap with
-Myers or Patience under a deadline that expires — NOT PROVED (needs an invariant of the clean-up weaker than `Exact`
-for the fallback pair; no counterexample is known: the recorded instance `CaptureExact.expired_captured` is exact,
-and an exhaustive run of the model over all pairs of sequences of length ≤ 5 over 3 symbols with clock budgets 0…6
-found none); hunk extents for sub-range diffs (`os, ns ≠ 0`): `group_diff_ops` / the unified-diff renderer are
-modelled for whole-sequence diffs only; the rendered header text itself is C05. -/
+Not covered by this theorem: (a) and (b) for the SHIPPED swap — false, (e); hunk extents for sub-range diffs
+(`os, ns ≠ 0`): `group_diff_ops` / the unified-diff renderer are modelled for whole-sequence diffs only; the rendered
+header text itself is C05. -/
 theorem C11_statement (alg : Alg) (E : Env) (os oe ns ne : Nat) (w : World)
     (hr : RangesInBounds E os oe ns ne) :
     (∃ (opsR opsS : List Op) (w' : World),
       -- `capture_diff` returns, with the repaired and with the shipped swap
       captureDiff alg E true os oe ns ne w = .ok (opsR, w') ∧
       captureDiff alg E false os oe ns ne w = .ok (opsS, w') ∧
-      -- (a), (b): the repaired swap
-      ((alg = .lcs ∨ w.clock = none) →
-        -- (a)
+      -- (a), (b): the repaired swap, every algorithm, every clock
+      (-- (a)
         Exact os ns opsR ∧
         (∀ pre x post, opsR = pre ++ x :: post →
           x.oStart = os + (pre.map Op.oLen).sum ∧ x.nStart = ns + (pre.map Op.nLen).sum) ∧
@@ -107,16 +106,8 @@ theorem C11_statement (alg : Alg) (E : Env) (os oe ns ne : Nat) (w : World)
   obtain ⟨opsR, opsS, w', hcR, hcS, hwR, hwS, -, -, her⟩ :=
     capture_repair_only_touches_carried alg E os oe ns ne w hr
   refine ⟨opsR, opsS, w', hcR, hcS, ?_, ⟨hwS, hwR, walk_primary_positions _ opsS _ _ _ _ hwS⟩, her, ?_⟩
-  · intro halg
-    have hx : Exact os ns opsR := by
-      have hex : ∃ ops w'', captureDiff alg E true os oe ns ne w = .ok (ops, w'') ∧ Exact os ns ops := by
-        rcases halg with rfl | hclk
-        · obtain ⟨ops, w'', hc, -, hx, -⟩ := C11.capture_lcs_exact_repaired E os oe ns ne w hr.old_le hr.new_le hr.cross
-          exact ⟨ops, w'', hc, hx⟩
-        · obtain ⟨ops, w'', hc, -, hx, -⟩ := C11.capture_exact_repaired_total alg E os oe ns ne w hr.old_le hr.new_le
-            hr.cross (fun _ => ⟨hr.oldSide, hr.newSide⟩) hclk
-          exact ⟨ops, w'', hc, hx⟩
-      obtain ⟨ops, w'', hc, hx⟩ := hex
+  · have hx : Exact os ns opsR := by
+      obtain ⟨ops, w'', hc, hx⟩ := C11.capture_exact_repaired_every_clock alg E os oe ns ne w hr
       rw [hcR] at hc
       cases hc
       exact hx
@@ -135,12 +126,11 @@ theorem C11_statement (alg : Alg) (E : Env) (os oe ns ne : Nat) (w : World)
 
 #print axioms C11_statement
 
-/-- non-vacuity: the hypothesis holds for the SUB-RANGES `1..3` of `[5,0,1,7]` and `[5,1,1,7]` (and
-`alg = .lcs ∨ w.clock = none` for the world `{}`, which has no deadline) … -/
+/-- non-vacuity: the hypothesis holds for the SUB-RANGES `1..3` of `[5,0,1,7]` and `[5,1,1,7]` (for every world:
+the theorem has no hypothesis on the algorithm or the clock) … -/
 example : RangesInBounds (Env.ofSeqs #[5,0,1,7] #[5,1,1,7]) 1 3 1 3 :=
   RangesInBounds.of_eqPattern (by decide) (by decide)
     (IdentP.eqPattern_ofSeqs #[5,0,1,7] #[5,1,1,7] 0 0 1 3 1 3 (by decide) (by decide) (by decide) (by decide))
-example : ∀ alg : Alg, alg = .lcs ∨ ({} : World).clock = none := fun _ => .inr rfl
 
 /-- … on which the shipped Myers and Patience results have stale carried indices (the Delete claims new position 2,
 true 1; the Insert claims old position 2, true 3), the repaired ones are exact (range start 1 plus the items
@@ -161,11 +151,38 @@ example : Exact 1 1 [.delete 1 1 1, .equal 2 1 1, .insert 3 2 1] ∧
   simp only [Exact]; decide
 
 /-- … while LCS does not swap on this input: shipped and repaired coincide and are exact, without a deadline and
-with an already expired one (the case (a) covers beyond "no deadline") -/
+with an already expired one -/
 example : ∀ (repair : Bool) (clock : Option Nat), clock = none ∨ clock = some 0 →
     (captureDiff .lcs (Env.ofSeqs #[5,0,1,7] #[5,1,1,7]) repair 1 3 1 3 { clock := clock }).map (·.1) =
       .ok [.delete 1 1 1, .equal 2 1 1, .insert 3 2 1] := by
   intro repair clock h
   rcases h with rfl | rfl <;> cases repair <;> rfl
+
+/-- non-vacuity under an EXPIRING deadline (the case (a), (b) cover since `C11.capture_exact_repaired_every_clock`):
+`[1,0]` vs `[0,0,0]`, whole ranges, clock `some 0` — the hypothesis holds … -/
+example : RangesInBounds (Env.ofSeqs #[1, 0] #[0, 0, 0]) 0 2 0 3 :=
+  RangesInBounds.of_eqPattern (by decide) (by decide)
+    (IdentP.eqPattern_ofSeqs #[1, 0] #[0, 0, 0] 0 0 0 2 0 3 (by decide) (by decide) (by decide) (by decide))
+
+/-- … Myers and Patience fall back to `delete; insert` (the Insert carries old index 0, true 1: the raw stream is not
+exact); the repaired `capture_diff` returns exact positions (the swapped Insert survives as a stand-alone op with the
+true old index 2), the shipped one does not (`insert(1,1,2)`), and the two agree once carried indices are erased -/
+example : ∀ alg : Alg, alg ≠ .lcs →
+    (rawTrace alg (Env.ofSeqs #[1, 0] #[0, 0, 0]) 0 2 0 3 { clock := some 0 }).map (·.1.trace) =
+      .ok [.op (.delete 0 1 0), .op (.insert 0 0 2), .op (.equal 1 2 1), .finish] ∧
+    (captureDiff alg (Env.ofSeqs #[1, 0] #[0, 0, 0]) true 0 2 0 3 { clock := some 0 }).map (·.1) =
+      .ok [.delete 0 1 0, .equal 1 0 1, .insert 2 1 2] ∧
+    (captureDiff alg (Env.ofSeqs #[1, 0] #[0, 0, 0]) false 0 2 0 3 { clock := some 0 }).map (·.1) =
+      .ok [.delete 0 1 0, .equal 1 0 1, .insert 1 1 2] := by
+  intro alg h; cases alg
+  · exact ⟨by rfl, by rfl, by rfl⟩
+  · exact ⟨by rfl, by rfl, by rfl⟩
+  · exact absurd rfl h
+example : ¬ Exact 0 0 [.delete 0 1 0, .insert 0 0 2, .equal 1 2 1] ∧
+    Exact 0 0 [.delete 0 1 0, .equal 1 0 1, .insert 2 1 2] ∧
+    ¬ Exact 0 0 [.delete 0 1 0, .equal 1 0 1, .insert 1 1 2] := by
+  simp only [Exact]; decide
+example : ([.delete 0 1 0, .equal 1 0 1, .insert 1 1 2] : List Op).map CompactP.eraseOp =
+    ([.delete 0 1 0, .equal 1 0 1, .insert 2 1 2] : List Op).map CompactP.eraseOp := by decide
 
 end SimilarVerif.Headline
